@@ -1,5 +1,6 @@
 (* Properties/C03.v — Piece memory is accounted, evictable to the low mark, and fully released. *)
-From Storrent Require Import Base.Bytes Model.PieceStore Proof.PieceStore.
+From Coq Require Import ZArith.
+From Storrent Require Import Base.Bytes Model.PieceStore Model.Expire Proof.PieceStore Proof.Expire.
 Open Scope N_scope.
 
 (* In every reachable state of the piece store (any interleaving of block arrivals,
@@ -36,3 +37,29 @@ Theorem c03_evict_reports : forall plen s i c,
   snd (free plen s i) = RDeleted c -> (c = true <-> pc_state (get s i) = Complete).
 Proof. exact evict_reports. Qed.
 Print Assumptions c03_evict_reports.
+
+(* The global pass (tor.Expire, Model/Expire.v, tied to the code by the per-torrent audit of the
+   harness): when it decides to evict, memory was at or above the high mark; the share it hands out
+   is at least low/n, so torrents within their fair share are never asked to evict; and if every
+   torrent that is asked comes down to the share (each per-torrent pass evicts to its target:
+   c03_evict_reports and the accounting theorem) while the others are left alone, the total is at
+   most the low-water mark — for any number of torrents of any sizes and any mark. *)
+Theorem c03_fair_shares : forall mark space sizes f2,
+  expire_plan mark space sizes = ((-1)%Z, Some f2) ->
+  (mark <= space)%Z /\
+  (low_mark mark / Z.of_nat (length sizes) <= f2)%Z /\
+  forall afters,
+    Forall2 (fun b a => if asked f2 b then (0 <= a <= f2)%Z else a = b) sizes afters ->
+    (zsum afters <= low_mark mark)%Z.
+Proof. exact expire_fair. Qed.
+Print Assumptions c03_fair_shares.
+
+(* it asks for eviction only at or above the high mark, reports "plenty of room" only below the
+   middle mark *)
+Theorem c03_global_decision : forall mark space sizes rc share,
+  expire_plan mark space sizes = (rc, share) ->
+  (rc = 1%Z -> (space < (low_mark mark + mark) / 2)%Z) /\
+  (rc = (-1)%Z -> (mark <= space)%Z /\ share <> None) /\
+  (rc = 1%Z \/ rc = 0%Z \/ rc = (-1)%Z).
+Proof. exact expire_decision. Qed.
+Print Assumptions c03_global_decision.
